@@ -93,8 +93,7 @@ def run(tier, seed):
             meta.append(('dump', did, d))
             if d and (rng.random() < 0.5 or d is big):
                 # (the dump longer than 64 KiB in BOTH line formats: they differ in characters per line, so a limit counted in characters cuts them at different sizes)
-                for k in ((1, 2) if d is big else (rng.choice([1, 2]),)):
-                    pad = rng.random() < 0.5
+                for k, pad in (((1, False), (1, True), (2, False), (2, True)) if d is big else ((rng.choice([1, 2]), rng.random() < 0.5),)):
                     reqs.append('render %d %d %s' % (k, int(pad), tb(d)))
                     meta.append(('render', did, d, k, pad))
         # dump files whose data bytes are the delimiter characters of the OTHER line format (':', '<', '>', blanks, hex digits):
